@@ -40,7 +40,10 @@ THEOREMS = [
 
 GKEYS = [[107], [], [97, 98], [121]]
 KVALS = ["sa120", "sa121", "sa-", "sa116.114.117.101", "sa49", "n1", "n2020", "i-5", "T", "F", "N", "r3ff8000000000000", "sa49.46.53",
-         "P:sa120", "P:n1", "P:T"]
+         "P:sa120", "P:n1", "P:T",
+         # the empty string in every way the API builds one (with and without storage), a legitimate group name
+         "sh-", "si120", "sj120.121", "sk-", "sl-", "sb-", "se-", "sf-", "sg-", "E:typ", "E:tyc", "E:ptrnull", "E:movedout", "P:sh-"]
+EMPTY_VALS = ["sa-", "sh-", "si120", "sj120.121", "sk-", "sl-", "sg-", "E:typ", "E:tyc", "E:ptrnull", "E:movedout"]
 MKEYS = [[109], [110], [111], [112], [97]]
 
 
@@ -77,7 +80,20 @@ def object_ops(c, rng, i, gkey, layout, kval):
     'u' (a member that is created and never assigned)."""
     used = 0
     for what in layout:
-        if what == "K" and kval.startswith("P:"):
+        if what == "K" and kval.startswith("E:"):
+            loc = "1/ia%d/k%s%s" % (i, rng.choice("abcdef"), V.units(gkey))
+            how = kval[2:]
+            if how == "typ":          # operator=(ValueType::String): an empty string without storage
+                c.ops.append("typ %s 4" % loc)
+            elif how == "tyc":        # Value(ValueType::String)
+                c.ops.append("tyc %s 4" % loc)
+            elif how == "ptrnull":    # a string emptied by SetPointerToValue(nullptr)
+                c.ops.append("set %s sa120.121" % loc)
+                c.ops.append("ptr %s -" % loc)
+            else:                     # a string whose content was moved out (operator=(StringT&&) elsewhere)
+                c.ops.append("set %s sa120.121" % loc)
+                c.ops.append("cop am s 3 %s" % loc)
+        elif what == "K" and kval.startswith("P:"):
             c.ops.append("set 3 %s" % kval[2:])
             c.ops.append("ptr 1/ia%d/k%s%s 3" % (i, rng.choice("abcdef"), V.units(gkey)))
         elif what == "K":
@@ -131,6 +147,12 @@ def gen_cases(ctx):
         cases.append(make_case(rng, rng.choice(GKEYS), list(p)))
     for _ in range(400 if not ctx.thorough else 6000):
         cases.append(make_case(rng, rng.choice(GKEYS), [rng.choice(small) for _ in range(3)]))
+    # the empty string as grouping value, built in every way, at every position, for every key, mixed with other values
+    for gkey in GKEYS:
+        for ev in EMPTY_VALS:
+            for layout in (["K"], ["m", "K"], ["K", "m"], ["x", "K", "m"]):
+                cases.append(make_case(rng, gkey, [(layout, ev)]))
+                cases.append(make_case(rng, gkey, [(["K", "m"], "sa120"), (layout, ev), (["m", "K"], rng.choice(EMPTY_VALS)), (["K"], "n1")]))
     # random: 0..6 objects, longer layouts, every key-value kind, members of every kind
     for _ in range(1500 if not ctx.thorough else 30000):
         n = rng.choice([1, 2, 3, 3, 4, 5, 6])
